@@ -11,8 +11,28 @@ mod common;
 use common::*;
 use enc::Packet;
 
+/// `cc <K> <columns> <rows> <blackIs1> <data> <expected>`: hand-made CCITT vectors (T.4 / T.6 codes
+/// written out by hand, see docs/C07.md); the decoder is outside the model, only the answer is checked
+fn run_ccitt(p: &[&str]) -> String {
+    use oxidize_pdf::parser::objects::{PdfDictionary, PdfName, PdfObject, PdfStream};
+    let (Ok(k), Ok(cols), Ok(rows)) = (p[1].parse::<i64>(), p[2].parse::<i64>(), p[3].parse::<i64>()) else { return "bad-request".into() };
+    let Some(data) = unhex(p[5]) else { return "bad-request".into() };
+    let mut parms = PdfDictionary::new();
+    parms.insert("K".into(), PdfObject::Integer(k));
+    parms.insert("Columns".into(), PdfObject::Integer(cols));
+    parms.insert("Rows".into(), PdfObject::Integer(rows));
+    parms.insert("BlackIs1".into(), PdfObject::Boolean(p[4] == "1"));
+    let mut dict = PdfDictionary::new();
+    dict.insert("Filter".into(), PdfObject::Name(PdfName::new("CCITTFaxDecode".to_string())));
+    dict.insert("DecodeParms".into(), PdfObject::Dictionary(parms));
+    show_full(&call(&PdfStream { dict, data }, None))
+}
+
 fn run(req: &str) -> String {
     let p: Vec<&str> = req.split(' ').collect();
+    if p.len() == 7 && p[0] == "cc" {
+        return run_ccitt(&p);
+    }
     if p.len() != 7 || p[0] != "rt" {
         return "bad-request".into();
     }
@@ -324,6 +344,16 @@ fn gen(rng: &mut Rng, tier: Tier) -> Vec<Case> {
         for _ in 0..2 {
             cases.push(rt_case(rng, &["A85"], s.to_vec(), "leading-lt", 0, false));
         }
+    }
+    // (6) CCITT: hand-made vectors only (no reference encoder) — `ccitt` cases
+    for (k, cols, rows, b1, data, want) in [
+        (-1, 8, 2, 0, "c0040040", "ffff"),       // G4: two all-white rows (V0, V0), EOFB
+        (-1, 8, 1, 0, "26a280080080", "00"),     // G4: one all-black row (H, white 0, black 8), EOFB
+        (-1, 8, 2, 1, "c0040040", "0000"),       // the same with /BlackIs1 true
+        (0, 8, 1, 0, "98008008008008008008", "ff"), // G3 1-D: white run 8 (10011), RTC
+        (0, 8, 1, 0, "83001001001001001001", "e0"), // G3 1-D: white 3 (1000), black 5 (0011), RTC
+    ] {
+        cases.push(Case::new(format!("cc {} {} {} {} {} {}", k, cols, rows, b1, data, want), "ccitt hand-vector nt"));
     }
     cases
 }
